@@ -54,6 +54,7 @@ def run(fuzz_n=0):
         j = json.load(open(outp, encoding='utf-8'))
         out['bad'] = j['bad']
         out['summary'] = {k: j[k] for k in ('events', 'units', 'consistent')}
+        out['unit_table'] = j['unit_table']
     else:
         # longest matched prefix + next line
         out['rejected_at'] = res.distinct - 1
@@ -78,3 +79,24 @@ def report(chk, pid, out, extra_classes=()):
             continue
         if b['cls'] in cls:
             chk.violation(f"{b['cls']}:{b['type']}:{b['key']}", f"{b['cls']} {b['type']} {b['key']} -> {b['detail']}", b)
+
+
+def write_mags(out, path):
+    """Oracle file for the numeric harnesses: exact magnitude (num den pi-exponent) and offset of every
+    unit, evaluated from the bags TLC emitted (unit_table)."""
+    def bag(b):
+        if isinstance(b, list):   # empty function serialised as []
+            b = {}
+        return scan.bag_value({k: int(v) for k, v in b.items()})
+    with open(path, 'w') as f:
+        for u in out['unit_table']:
+            q, k = bag(u['mag'])
+            if u['has_off']:
+                o, ok = bag(u['off'])
+                assert ok == 0
+            else:
+                o = 0
+            from fractions import Fraction as Fr
+            o = Fr(o)
+            f.write(f"{u['type']} {u['name']} {q.numerator} {q.denominator} {k} {1 if u['has_off'] else 0} {o.numerator} {o.denominator}\n")
+    return path
